@@ -224,10 +224,36 @@ func canonicalNameCompare(a, b string) int {
 	return dnsname.CanonicalCompare(a, b)
 }
 
+// nsecNextBelow reports whether next is a strict descendant of name: next
+// with its extra leading labels removed is name itself. The comparison is
+// the canonical one, so case, escapes and a missing root dot do not matter.
+func nsecNextBelow(next, name string) bool {
+	extra := dns.CountLabel(next) - dns.CountLabel(name)
+	if extra <= 0 {
+		return false
+	}
+	off := 0
+	for ; extra > 0; extra-- {
+		off, _ = dns.NextLabel(next, off)
+	}
+	return canonicalNameCompare(next[off:], name) == 0
+}
+
 // nsecCovers reports whether an NSEC whose owner is `owner` and whose
 // NextDomain is `next` proves the non-existence of `name`. It uses
 // canonical DNS name ordering (RFC 4034 §6.1).
+//
+// Lying inside the interval is not enough. When `next` is a descendant of
+// `name`, the zone holds something below `name`, so `name` exists as an
+// empty non-terminal (RFC 4592 §2.2.2, RFC 8198 Appendix B). Canonical
+// order puts an ancestor directly before its descendants, so such a name
+// passes the interval test all the same; the NSEC proves NODATA for it,
+// never its non-existence.
 func nsecCovers(owner, next, name string) bool {
+	if nsecNextBelow(next, name) {
+		return false
+	}
+
 	cmpON := canonicalNameCompare(owner, next)
 	cmpNameOwner := canonicalNameCompare(name, owner)
 	cmpNameNext := canonicalNameCompare(name, next)
